@@ -2,6 +2,8 @@
      src/cffi/api.py      FFILibrary.__cffi_close__          (statements of the body, in order)
      src/c/_cffi_backend.c dl_close_lib                       (statements under `if (dlobj->dl_handle != NULL)`)
      src/c/cdlopen.c      ffi_dlclose                        (statements under `if (libhandle != NULL)`)
+     src/c/cdlopen.c      cdlopen_fetch, and dl_load_function / dl_read_variable / dl_write_variable in
+                          _cffi_backend.c: does the closed test (returning NULL) PRECEDE the dlsym() call?
    the committed copy is Gen.v.snapshot.  Do not edit. *)
 From Coq Require Import List.
 Import ListNotations.
@@ -10,3 +12,5 @@ From Cffi Require Import C37.Steps.
 Definition inline_close : list cstep := [ CallCloseLib; ClearDict ].
 Definition backend_close_lib : list cstep := [ DlClose; SetHandleNull ].
 Definition ool_close : list cstep := [ SetHandleNull; ClearDict; DlClose ].
+Definition ool_fetch_checks_first : bool := true.
+Definition inline_checks_first : bool := true.
